@@ -1,5 +1,5 @@
 import Drand.Beacon.Stream
-namespace Drand.Driver
+namespace Drand.Driver.StreamD
 open Drand Drand.Store Drand.Beacon.Stream
 
 /-- the deterministic test chain of the `stream` engine (harness/cmd/verifh/stream.go `streamSig`) -/
@@ -223,4 +223,4 @@ def streamStep' (d : StreamDrv) (f : List String) : StreamDrv × String :=
   let (d', r) := streamStep2 d f
   (normalize d', r)
 
-end Drand.Driver
+end Drand.Driver.StreamD
